@@ -15,11 +15,17 @@
 
 #define MAXE 16384
 
-struct elem { int key; int id; unsigned stamp; struct cstl_heap_node hn; };
+struct elem { int key; int id; unsigned stamp; struct cstl_heap_node hn; char pad[40]; struct cstl_heap_node hn2; };
 
 static struct elem * pool[MAXE];
 static int keys[MAXE], nkeys;
-static struct cstl_heap heap;
+/* Two heap objects whose elements embed the node at different offsets; the heap under test is *ph.  Header
+ * `swapobj i j ..`: before the operations with these 0-based indices the two objects are exchanged with cstl_heap_swap
+ * and the test carries on with the other one (everything the heap consists of travels with it: the model is unaffected). */
+static struct cstl_heap heaps[2], * ph;
+#define heap (*ph)
+#define MAXSW 16
+static int swap_at[MAXSW], nswap, cur_obj;
 static unsigned stamp;
 
 static struct elem * get(int id)
@@ -31,6 +37,7 @@ static struct elem * get(int id)
         pool[id]->id = id;
         pool[id]->stamp = 0;
         memset(&pool[id]->hn, 0xA5, sizeof(pool[id]->hn));
+        memset(&pool[id]->hn2, 0xA5, sizeof(pool[id]->hn2));
     }
     return pool[id];
 }
@@ -38,7 +45,7 @@ static int idof(const void * e) { return e ? ((const struct elem *)e)->id : -1; 
 
 static struct elem * elem_of(const struct cstl_bintree_node * n)
 {
-    return (struct elem *)((uintptr_t)n - offsetof(struct elem, hn.bn));
+    return (struct elem *)((uintptr_t)n - heap.bt.off);
 }
 
 /* The contract of cstl_compare_func_t only fixes the sign of the result.
@@ -110,12 +117,13 @@ static void run_case(const struct h_case * c)
 {
     int i, k, every = 1, nops = 0, done = 0;
 
-    nkeys = 0; cmpmode = 0; cmp_calls = 0;
+    nkeys = 0; cmpmode = 0; cmp_calls = 0; nswap = 0; cur_obj = 0; ph = &heaps[0];
     memset(pool, 0, sizeof(pool));
     for (i = 0; i < c->nlines; i++)
         if (!h_weq(&c->lines[i], 0, "keys") && !h_weq(&c->lines[i], 0, "dumpevery")
-            && !h_weq(&c->lines[i], 0, "cmpmode")) nops++;
-    cstl_heap_init(&heap, cmp, H_COOKIE, offsetof(struct elem, hn));
+            && !h_weq(&c->lines[i], 0, "cmpmode") && !h_weq(&c->lines[i], 0, "swapobj")) nops++;
+    cstl_heap_init(&heaps[0], cmp, H_COOKIE, offsetof(struct elem, hn));
+    cstl_heap_init(&heaps[1], cmp, H_COOKIE, offsetof(struct elem, hn2));
     for (i = 0; i < c->nlines; i++) {
         const struct h_line * l = &c->lines[i];
         int a = (int)h_int(l, 1);
@@ -126,6 +134,11 @@ static void run_case(const struct h_case * c)
         }
         if (h_weq(l, 0, "dumpevery")) { every = a > 0 ? a : 1; continue; }
         if (h_weq(l, 0, "cmpmode")) { cmpmode = a; continue; }
+        if (h_weq(l, 0, "swapobj")) { for (k = 1; k < l->nw && nswap < MAXSW; k++) swap_at[nswap++] = (int)h_int(l, k); continue; }
+        for (k = 0; k < nswap; k++) if (swap_at[k] == done) {
+            cstl_heap_swap(&heaps[0], &heaps[1]);
+            cur_obj = !cur_obj; ph = &heaps[cur_obj];
+        }
         if (h_weq(l, 0, "push") && l->nw == 2) { cstl_heap_push(&heap, get(a)); printf("ok "); }
         else if (h_weq(l, 0, "pop") && l->nw == 1) { printf("ok %d", idof(cstl_heap_pop(&heap))); }
         else if (h_weq(l, 0, "get") && l->nw == 1) { printf("ok %d", idof(cstl_heap_get(&heap))); }
